@@ -87,6 +87,22 @@ def _sizes(sp, opts, acc, tag):
         raise shape.viol(PROP, sp, "decoded-nBytes-raises", tag, f"{type(e).__name__}: {e}")
     if nb2 != len(data):
         raise shape.viol(PROP, sp, "decoded-nBytes!=written", tag, f"decoded block declares {nb2}, bytes {len(data)}")
+    # the same block as other software stores it (every don't-care byte filled, all byte values occur): consumed to
+    # the byte as well, and the decoded block declares the size it occupies
+    if not may_refuse:
+        try:
+            noisy = R.encode_block(sp, junk=lambda k: bytes((i * 7 + 0x41) % 255 + 1 for i in range(k)))
+        except Exception:  # noqa: BLE001
+            noisy = None
+        if noisy is not None and noisy != data:
+            try:
+                d2, pos2 = specs.lib_decode(t, fmt, noisy, SENT)
+                nb3 = int(d2.nBytes)
+            except Exception as e:
+                raise shape.viol(PROP, sp, "decode-raises", tag, f"layout-conformant bytes with filled padding: {type(e).__name__}: {e}", "foreign")
+            if pos2 != len(noisy) or nb3 != len(noisy):
+                raise shape.viol(PROP, sp, "consumed!=written", tag, f"layout-conformant bytes with filled padding: reader stops at {pos2}, "
+                                 f"decoded block declares {nb3}, block has {len(noisy)} bytes", "foreign")
     return obj, len(data)
 
 
